@@ -445,6 +445,22 @@ def run_unit(unit_path, prop, tier, seed, tag=None):
     # assumption scan
     gen_text = '\n'.join(gen_lines)
     found, cheats = scan_assumptions([out_path] + lib_paths(gen_text))
+    # say what each assumption in the generated file is: the stub of a callee whose contract another unit proves, or a trusted function
+    stub_info = {bi['name']: bi.get('proved_in') for bi in rep['blocks'] if bi.get('kind') == 'stub'}
+    rel_out = os.path.relpath(out_path, ROOT)
+    described = []
+    for f_ in found:
+        m_ = re.match(r'(\S+):(\d+) (.*)$', f_)
+        if m_ and m_.group(1) == rel_out and 'external_body' in m_.group(3):
+            ln_ = int(m_.group(2))
+            nm_ = owner[ln_ - 1] if 0 < ln_ <= len(owner) else None
+            sig_ = next((gen_lines[q].strip() for q in range(ln_, min(ln_ + 3, len(gen_lines))) if gen_lines[q].strip()), '')[:100]
+            if nm_ in stub_info:
+                f_ += ' | stub of %s: %s | %s' % (nm_, ('contract proved in unit ' + stub_info[nm_]) if stub_info[nm_] else 'TRUSTED - no unit proves this contract (body outside the verifier)', sig_)
+            else:
+                f_ += ' | ' + sig_
+        described.append(f_)
+    found = described
     u['assumptions'] = found
     if cheats:
         u['undecided'].append({'reason': 'assume-or-admit-present', 'detail': '; '.join(cheats[:5])})
